@@ -42,7 +42,7 @@ EXCLUDED_OPS = [
     dict(op="TensorAppendColumn / NewTensorMatrix with an out-of-range layer", why="not accessors; abort / message by design, no container state defined"),
     dict(op="NewTensorMatrix on an already created layer", why="overwrites the pointer (leak); no documented contract"),
     dict(op="any call on a tensor that still has NULL layers from NewTensor(n), except NewTensorMatrix", why="NULL layers are dereferenced by design until created"),
-    dict(op="NewDVectorList(n > 0)", why="leaves n uninitialised pointers and the API offers no call to fill them; Del would free garbage by design"),
+    dict(op="NewDVectorList(n > 0) WITHOUT filling the slots", why="leaves n uninitialised pointers; Del would free garbage by design. The composite 'NewDVectorList(n) + NewDVector on every slot' (the only valid use) IS in the alphabet as NewDVectorListFilled"),
     dict(op="DVectNorm with a shorter destination", why="writes past the destination by its own size test; arithmetic kernel, contract ambiguous"),
     dict(op="MatrixDeleteRowAt / MatrixDeleteColAt with an invalid index or on an empty dimension", why="not an accessor; writes out of bounds (observation), outside 'valid operations'"),
     dict(op="setStr / getStr out of range", why="no bounds check and none documented; the property's accessor clause is anchored on the numeric vectors, matrix and tensor"),
@@ -190,7 +190,7 @@ LAYOUT = {
     "initTensor": "x:s", "NewTensor": "x:s n:i", "NewTensorMatrix": "x:s k:i r:i c:i", "AddTensorMatrix": "x:s r:i c:i", "DelTensor": "x:s",
     "setTensorValue": "x:s k:i i:i j:i v:i", "getTensorValue": "x:s k:i i:i j:i ret:R", "TensorAppendMatrix": "x:s r:i c:i f:F", "TensorAppendColumn": "x:s k:i vs:V",
     "TensorSet": "x:s v:i", "TensorCopy": "src:s dst:s",
-    "initDVectorList": "x:s", "NewDVectorList": "x:s n:i", "DVectorListAppend": "x:s vs:V", "DelDVectorList": "x:s",
+    "initDVectorList": "x:s", "NewDVectorList": "x:s n:i", "NewDVectorListFilled": "x:s vss:L", "DVectorListAppend": "x:s vs:V", "DelDVectorList": "x:s",
 }
 for _k, _names in VEC_NAMES.items():
     for _call, _name in _names.items():
@@ -242,6 +242,12 @@ class Script:
                 elif typ == "V":
                     v = a[key] if isinstance(a[key], list) else []
                     toks += [len(v)] + v
+                elif typ == "L":
+                    vs = a[key] if isinstance(a[key], list) else []
+                    toks.append(len(vs))
+                    for v in vs:
+                        v = v if isinstance(v, list) else []
+                        toks += [len(v)] + v
                 elif typ == "S":
                     toks.append(self.sid(a[key]))
                 elif typ == "F":
